@@ -123,6 +123,7 @@ static bool stepC17(const Case &c, const Result &ref, RunStats &st,
         sc.add((uint64_t)idx);
         sc.add((uint64_t)c.op.fault.kind);
         st.scenarios.insert(sc.h);
+        st.cases.insert(mix2(mix2(c.op.hash(), (uint64_t)c.op.fault.kind), (uint64_t)idx));
         for (auto &a : rep.heap.allocs)
             if (a.failedBy) st.sitesFailed.insert(symName(a.site));
     }
